@@ -8,5 +8,7 @@ INVARIANT Acyclic
 INVARIANT WellFormed
 INVARIANT ExecSafe
 INVARIANT ExecConfluent
+INVARIANT SinkCollectsAll
+INVARIANT UpstreamIrreflexive
 INVARIANT EmitCase
 CHECK_DEADLOCK FALSE
